@@ -9,6 +9,7 @@ pub mod c06;
 pub mod c07;
 pub mod c08;
 pub mod c09;
+pub mod c10;
 pub mod c11;
 pub mod c12;
 pub mod c13;
@@ -52,6 +53,7 @@ pub fn get(id: &str) -> Option<Prop> {
         "C07" => Some(c07::prop()),
         "C08" => Some(c08::prop()),
         "C09" => Some(c09::prop()),
+        "C10" => Some(c10::prop()),
         "C11" => Some(c11::prop()),
         "C12" => Some(c12::prop()),
         "C13" => Some(c13::prop()),
